@@ -23,6 +23,8 @@ def run(ctx, L, tier):
     check_nodes(ctx, L)
     interface(ctx, L)
     M.stiffness(ctx, L)
+    from . import c20
+    c20.shared_state(ctx, L)        # no state that survives from one compiled file / call to the next (module, class, closure, default argument)
     return sorted(set(o.rule for o in L.obligations))
 
 
